@@ -1780,18 +1780,17 @@ func (p *Parser) parseRightSideExpression(left ast.BooleanExpression, single boo
 		if p.curToken.Literal == token.RPAREN {
 			return grouped, impData, nil
 		}
-		operator = p.curToken.Type
-		if negated {
-			operator = getNegatedBooleanOperator(p.curToken.Type)
+		if p.curToken.Type != token.AND && p.curToken.Type != token.OR {
+			return nil, nil, NewParseError(p.curToken, fmt.Sprintf("expected '&&', '||' or ')' in boolean expression, got '%s' instead", p.curToken.Literal))
 		}
-		binaryExpression := &ast.BinaryExpression{Left: grouped, Operator: operator}
-		boolExpression, exprImpData, err := p.parseBooleanExpression(false, negated, scriptName)
+		// '&&' binds tighter than '||', so the grouped expression is the left side
+		// of whatever operator comes next.
+		boolExpression, exprImpData, err := p.parseRightSideExpression(grouped, single, negated, scriptName)
 		if err != nil {
 			return nil, nil, err
 		}
 		impData.add(exprImpData)
-		binaryExpression.Right = boolExpression
-		return binaryExpression, impData, nil
+		return boolExpression, impData, nil
 	} else if p.curToken.Type == token.OR {
 		operator := curTokenType
 		right, exprImpData, err := p.parseBooleanExpression(false, negated, scriptName)
